@@ -45,7 +45,7 @@ inductive VInstr where
   | writeText (t : List Char)
   | writeTop
   | set (n : String) (global : Bool)
-  | include (n : String)
+  | include_ (n : String)
   | buildMap (n : Nat)
   | buildList (n : Nat)
   | buildMapWithSpreads (flags : List Bool)
@@ -146,7 +146,7 @@ def decodeWith (parseConst : String → Option Value) : Instr → Option VInstr
     | "WriteText" => (Wire.strOfHex arg).map .writeText
     | "Set" => (nameArg arg).map (.set · false)
     | "SetGlobal" => (nameArg arg).map (.set · true)
-    | "Include" => (nameArg arg).map .include
+    | "Include" => (nameArg arg).map .include_
     | "BuildMap" => (WellFormed.decNat arg.toList).map .buildMap
     | "BuildList" => (WellFormed.decNat arg.toList).map .buildList
     | "BuildMapWithSpreads" => some (.buildMapWithSpreads (flagsOf arg))
@@ -204,7 +204,7 @@ def opV : VInstr → WellFormed.Op
   | .binarySubscript _ | .applyFilter _ | .runTest _ | .math _ | .plus | .cmp _ | .equal _
   | .strConcat | .in_ => .popPush 2 false
   | .slice _ => .popPush 4 false
-  | .writeText _ | .include _ | .renderBlock _ | .writePath _ => .nop
+  | .writeText _ | .include_ _ | .renderBlock _ | .writePath _ => .nop
   | .writeTop | .set .. => .pop 1
   | .buildMap n => if n = 0 then .push false else .popPush (2 * n) false
   | .buildList n => .popPush n true
